@@ -1,4 +1,5 @@
 import ctypes
+import numbers
 from enum import Enum
 
 ############
@@ -136,7 +137,7 @@ class Command(ctypes.Structure):
         for cls in type(self).__mro__:
             for field in cls.__dict__.get("_fields_", []):
                 value = kwargs.get(field[0])
-                if isinstance(value, int) and not isinstance(value, bool):
+                if isinstance(value, numbers.Integral) and not isinstance(value, bool):
                     assert_fits(value, field[1])
         try:
             super().__init__(*args, **kwargs)
